@@ -34,7 +34,7 @@ TRUSTED_BASE = ["Model/MuModel.v control skeleton validated by lock-step replay;
 def run(tier, seed):
     res = {"violations": [], "broken": [], "coverage": {}}
     tie = prop_mu_family.mu_tie(res, tier, seed)
-    specs = [("mu_mix", {}, 4000, 80000), ("mu_mix", {"VRT_N": 4}, 1500, 30000), ("muwait_mix", {"VRT_MODE": 1}, 1500, 30000),
+    specs = [("refcount_cv", {}, 300, 5000), ("refcount_cv", {"VRT_SCRIPT": 0}, 600, 10000), ("mix_all", {}, 800, 15000), ("muwait_mix", {"VRT_MODE": 6}, 600, 10000), ("cv_mix", {"VRT_MODE": 7}, 500, 8000), ("cv_mixlocks", {}, 800, 15000), ("mu_mix", {}, 4000, 80000), ("mu_mix", {"VRT_N": 4}, 1500, 30000), ("muwait_mix", {"VRT_MODE": 1}, 1500, 30000),
              ("cv_mix", {"VRT_MODE": 2}, 1000, 20000), ("mu_mix", {}, 1500, 30000, "binary"),
              ("rdwait_stuck", {}, 3, 10), ("longwait_stuck", {"VRT_CLOCKP": 0}, 5, 30), ("longwait_stuck", {"VRT_SCRIPT": 0}, 300, 5000), ("rdwait_stuck", {"VRT_SCRIPT": 0}, 2000, 40000)]
     cov = scen_common.run_scenarios(res, specs, tier, seed, {"C02", "C06", "C06x"} | scen_common.LIVENESS | scen_common.CRASHES)
